@@ -549,7 +549,9 @@ class Runner:
                 pos += n
             ps.append({n: norm_res(r) for n, r in zip(names, res[pos:pos + np_])})
             pos += np_
-            os_.append(tuple(norm_res(r) for r in res[pos:pos + NOUT]))
+            # an output that is an error is compared by status only: the text of an error is free (it may dump the live tree with the
+            # bookkeeping attributes the last getter left on it, e.g. data-nemeth-frac-level)
+            os_.append(tuple(("err", "") if r["r"] == "err" else norm_res(r) for r in res[pos:pos + NOUT]))
             pos += NOUT
         return results, ps, os_
 
